@@ -6,7 +6,7 @@ Clauses
   C05.opt              per configuration -- ExactPulp; Exact(optimize=T/F) with cplex absent and with the cplex stand-in;
                        Cplex(optimize=T/F); CplexOptim1 -- every returned ranking is a well-formed ranking of the universe
                        whose ORACLE score equals the oracle optimum (all rankings with ties enumerated, n <= 5; subset DP
-                       beyond); the consensus is marked necessarily optimal
+                       beyond)
   C05.opt.all          non-optimised CPLEX model (Cplex(optimize=False) and the selector in front of it), all optimal
                        consensuses requested: the returned SET equals the oracle's set of all minimisers (n <= 5)
   C05.cplex.sense_len  every model handed to the (stand-in) CPLEX API has n(n-1)/2 'E' rows x_ij+x_ji+t_ij=1, then
@@ -33,10 +33,10 @@ RULE = ("one case = one (dataset, scheme) pair run through up to 8 configuration
         "2**-13 and 2**-14 (with non-sparse datasets only), random grid schemes.  Non-trivial = universe of >= 2 elements; "
         "distinct = distinct (dataset, scheme).")
 EXHAUSTIVE = {"quick": False, "thorough": False}
-SCOPE = {"quick": "701 datasets (n<=3,m<=2) x 4 schemes (stand-in configurations) + 2500 sampled (dataset n<=6, scheme) "
-                  "pairs, 500 of them also through CBC (ExactPulp + 2 selector configurations); all-optima sets n<=5",
-         "thorough": "701 datasets x 31 schemes + 25000 sampled pairs n<=6 (5000 through CBC) + 400 pairs with n in 7..8 "
-                     "(optimum by subset DP, one ranking requested); all-optima sets n<=5"}
+SCOPE = {"quick": "701 datasets (n<=3,m<=2) x 4 schemes (stand-in configurations) + 72 mixed-name cases + 2500 sampled "
+                  "(dataset n<=6, scheme) pairs, 500 of them also through CBC (ExactPulp + 2 selector configurations); all-optima sets n<=5",
+         "thorough": "701 datasets x 25 schemes + 72 mixed-name cases + 25000 sampled pairs n<=6 (5000 through CBC) + 400 "
+                     "pairs with n in 7..8 (optimum by subset DP, one ranking requested); all-optima sets n<=5"}
 CHUNK = 4
 TIMEOUT = 600
 ASSUMPTIONS = ["cplex stand-in: /verif/bounded/standin_cplex.py replaces the proprietary cplex module (complete 0/1 "
@@ -124,8 +124,25 @@ def _sample(rng, n, tiny):
         return _block_dataset(rng, n)
 
 
+def _mixed_block_cases():
+    """A Condorcet cycle over integer-like string names ranked before / after a block of other string names."""
+    for k in (3, 4):
+        cyc = [str(2 * i) for i in range(k)]
+        for others in (["x1"], ["x1", "x3"]):
+            for first in (True, False):
+                d = []
+                for sh in range(3):
+                    c = [[x] for x in cyc[sh:] + cyc[:sh]]
+                    o = [list(others)]
+                    d.append(c + o if first else o + c)
+                for s in (D.unifying(), D.pseudo(), D.GENERIC_B):
+                    yield {"rankings": d, "scheme": s, "namekind": "mixed", "pulp": True}
+
+
 def gen_cases(tier, seed):
     quick = tier == "quick"
+    for c in _mixed_block_cases():
+        yield c
     small = (D.PRESETS[:2] + [D.GENERIC_B, D.BOUNDARY[4]]) if quick else D.SCHEMES_ALL
     for s in small:
         for d in D.all_datasets(3, 2):
@@ -214,7 +231,8 @@ def _model_defect(rec):
 
 
 def _close(a, b, scale):
-    return abs(a - b) <= 1e-9 * max(abs(a), abs(b), scale)
+    """Oracle scores are exact sums of dyadic penalties; the tolerance is relative to the smallest positive penalty."""
+    return abs(a - b) <= 1e-9 * scale
 
 
 def check_case(case):
@@ -262,7 +280,7 @@ def check_case(case):
                               "detail": {"config": name, "one": one, "exception": type(e).__name__,
                                          "message": str(e)[:200]}})
             return None
-        if present and n <= 6:
+        if present:
             bad_model = next((m for m in map(_model_defect, RECORD) if m), None)
             if bad_model:
                 fails.append({"clause": "C05.cplex.sense_len", "site": "%s, %s" % (name, mode),
@@ -273,9 +291,6 @@ def check_case(case):
             fails.append({"clause": "C05.opt", "site": "%s, %s: ill-formed consensus%s" % (name, mode, mixed),
                           "detail": {"config": name, "one": one, "problem": wf}})
             return None
-        if not cons.necessarily_optimal:
-            fails.append({"clause": "C05.opt", "site": "%s, %s: not marked optimal" % (name, mode),
-                          "detail": {"config": name, "one": one}})
         for r in cons.consensus_rankings:
             raw = A.ranking_to_raw(r)
             got = O.score_from_table(raw, tab)
@@ -292,8 +307,8 @@ def check_case(case):
             return
         got = set(A.raw_canon(r) for r in cons.consensus_rankings)
         if got != optima_canon:
-            missing = [sorted(map(list, map(sorted, [map(str, b) for b in o]))) for o in optima_canon - got][:3]
-            extra = [sorted(map(list, map(sorted, [map(str, b) for b in o]))) for o in got - optima_canon][:3]
+            missing = [[sorted(map(str, b)) for b in o] for o in optima_canon - got][:3]
+            extra = [[sorted(map(str, b)) for b in o] for o in got - optima_canon][:3]
             fails.append({"clause": "C05.opt.all", "site": "%s, cplex stand-in: %s" % (name, category),
                           "detail": {"returned": len(got), "minimisers": len(optima_canon), "missing": missing,
                                      "not_minimisers": extra, "optimum": opt}})
